@@ -80,7 +80,7 @@ mod slice {
             }
         };
         assert!(same(&first, model), "content_after_construct");
-        let mut pool: [Option<Cow<'static, [D]>>; 3] = [Some(first), None, None];
+        let mut pool: [Option<Cow<'static, [D]>>; 2] = [Some(first), None];
         let mut n = 1usize;
         for _ in 0..steps {
             let op = nd::below(3);
@@ -90,7 +90,7 @@ mod slice {
             let i = nd::below(n);
             match op {
                 0 => {
-                    if n < 3 {
+                    if n < 2 {
                         let c = pool[i].as_ref().unwrap().clone();
                         assert!(same(&c, model), "content_after_clone");
                         pool[n] = Some(c);
@@ -125,7 +125,7 @@ mod slice {
             }
         }
         cover!(n == 0, "all dropped by program reachable");
-        cover!(n == 3, "three live copies reachable");
+        cover!(n == 2, "two live copies reachable");
         drop(pool);
         if let Some(a) = keep_arc {
             assert!(Arc::strong_count(&a) == 1, "arc_refs_all_given_back");
@@ -163,7 +163,7 @@ fn str_program(kind: usize, steps: usize) {
         }
     };
     assert!(&*first == s, "content_after_construct");
-    let mut pool: [Option<SharedString>; 3] = [Some(first), None, None];
+    let mut pool: [Option<SharedString>; 2] = [Some(first), None];
     let mut n = 1usize;
     for _ in 0..steps {
         let op = nd::below(3);
@@ -173,7 +173,7 @@ fn str_program(kind: usize, steps: usize) {
         let i = nd::below(n);
         match op {
             0 => {
-                if n < 3 {
+                if n < 2 {
                     let c = pool[i].as_ref().unwrap().clone();
                     assert!(&*c == s, "content_after_clone");
                     assert!(c == *pool[i].as_ref().unwrap(), "clone_eq");
@@ -216,26 +216,26 @@ fn program(_k: usize, _s: usize) {
 }
 
 harnesses! {
+    #[cfg_attr(kani, kani::unwind(4))]
+    fn c14_slice_borrowed() { program(nd::below(2), 2) }
+    #[cfg_attr(kani, kani::unwind(4))]
+    fn c14_slice_owned() { program(2, 2) }
+    #[cfg_attr(kani, kani::unwind(4))]
+    fn c14_slice_shared() { program(3, 2) }
+    #[cfg_attr(kani, kani::unwind(4))]
+    fn c14_str_borrowed() { str_program(nd::below(2), 2) }
+    #[cfg_attr(kani, kani::unwind(4))]
+    fn c14_str_owned() { str_program(2, 2) }
+    #[cfg_attr(kani, kani::unwind(4))]
+    fn c14_str_shared() { str_program(3, 2) }
+    #[cfg_attr(kani, kani::unwind(4))]
+    fn c14_str_from_std() { str_program(4, 2) }
     #[cfg_attr(kani, kani::unwind(5))]
-    fn c14_slice_borrowed() { program(nd::below(2), 3) }
+    fn c14_slice_owned_3() { program(2, 3) }
     #[cfg_attr(kani, kani::unwind(5))]
-    fn c14_slice_owned() { program(2, 3) }
+    fn c14_slice_shared_3() { program(3, 3) }
     #[cfg_attr(kani, kani::unwind(5))]
-    fn c14_slice_shared() { program(3, 3) }
+    fn c14_str_owned_3() { str_program(2, 3) }
     #[cfg_attr(kani, kani::unwind(5))]
-    fn c14_str_borrowed() { str_program(nd::below(2), 3) }
-    #[cfg_attr(kani, kani::unwind(5))]
-    fn c14_str_owned() { str_program(2, 3) }
-    #[cfg_attr(kani, kani::unwind(5))]
-    fn c14_str_shared() { str_program(3, 3) }
-    #[cfg_attr(kani, kani::unwind(5))]
-    fn c14_str_from_std() { str_program(4, 3) }
-    #[cfg_attr(kani, kani::unwind(6))]
-    fn c14_slice_owned_4() { program(2, 4) }
-    #[cfg_attr(kani, kani::unwind(6))]
-    fn c14_slice_shared_4() { program(3, 4) }
-    #[cfg_attr(kani, kani::unwind(6))]
-    fn c14_str_owned_4() { str_program(2, 4) }
-    #[cfg_attr(kani, kani::unwind(6))]
-    fn c14_str_shared_4() { str_program(3, 4) }
+    fn c14_str_shared_3() { str_program(3, 3) }
 }
